@@ -9,7 +9,7 @@ for d in sorted(glob.glob("/verif/seeded/C*")):
         continue
     meta_p = os.path.join(d, "meta.json")
     meta = json.load(open(meta_p))
-    demos = [f for f in os.listdir(d) if f.startswith("demo_")]
+    demos = sorted(f for f in os.listdir(d) if f.startswith("demo_") and f.endswith(".py"))
     if not demos:
         continue
     wt = f"/tmp/vseed-{pid}"
